@@ -129,6 +129,29 @@ type space struct {
 	deep      []*Prof   // single profiles with stacks at the boundary depths
 	deepSeqs  [][]*Prof // merge sequences containing them
 	nPoolSeqs int
+	hist      []histCase
+}
+
+type histCase struct {
+	a, b *Prof
+	hist string
+	via  int
+}
+
+// histories: every ordered pair of profiles of different size classes (1 node ... 6 nodes; smaller, equal, larger)
+func historyCases(pool []*Prof) []histCase {
+	ps := []*Prof{pool[0], pool[1], pool[2], pool[3], pool[4], pool[8], pool[10], pool[14], pool[12]}
+	var out []histCase
+	for _, a := range ps {
+		for _, b := range ps {
+			for _, h := range []string{"handover", "retry"} {
+				for _, via := range []int{viaBinaryRaw, viaMultipart} {
+					out = append(out, histCase{a, b, h, via})
+				}
+			}
+		}
+	}
+	return out
 }
 
 // deepProfiles: for every boundary depth two profiles, each with a normal shallow sample next to the deep one:
@@ -193,7 +216,8 @@ func buildSpace(thorough bool) *space {
 			q[1] = s.pool[1] // a deep profile merged with a normal one that shares its root
 		}
 	}
-	s.total = s.p1 + len(s.deep) + s.nPoolSeqs + len(s.deepSeqs)
+	s.hist = historyCases(s.pool)
+	s.total = s.p1 + len(s.deep) + s.nPoolSeqs + len(s.deepSeqs) + len(s.hist)
 	return s
 }
 
@@ -204,6 +228,7 @@ func (s *space) describe() map[string]any {
 	}
 	n := len(s.pool)
 	m["boundary-depth"] = fmt.Sprintf("%d stack depths %v x {3 functions in rotation, pure recursion} + a shallow sample = %d profiles (3 parsers x 4 deliveries), %d merge sequences", len(s.scan.Depths), s.scan.Depths, len(s.deep), len(s.deepSeqs))
+	m["history"] = fmt.Sprintf("%d cases: ordered pairs of 9 profiles x {handover, retry} x {binary, multipart}", len(s.hist))
 	m["merge"] = fmt.Sprintf("pool of %d profiles: %d ordered sequences of 1..3 profiles", n, n+n*n+n*n*n)
 	return m
 }
